@@ -18,7 +18,7 @@ MAPS = {"0F": "0F", "0F38": "0F38", "0F3A": "0F3A", "MAP4": "MAP4", "MAP5": "MAP
 
 
 def load_db(chk):
-    out = os.path.join(core.CACHE, "dbx86-%s.json" % core.tree_hash()[:16])
+    out = os.path.join(core.CACHE, "dbx86v2-%s.json" % core.tree_hash()[:16])
     if not os.path.exists(out):
         os.makedirs(core.CACHE, exist_ok=True)
         tmp = out + ".%d.tmp" % os.getpid()
